@@ -3,6 +3,8 @@ package main
 import (
 	"fmt"
 	"go/types"
+	"math"
+	"strconv"
 	"strings"
 
 	"golang.org/x/tools/go/ssa"
@@ -456,48 +458,228 @@ func (e *Exec) opaqueConcat(a, b *opaqueStr) StrV {
 
 func isDigitOrSign(b byte) bool { return (b >= '0' && b <= '9') || b == '-' || b == '+' }
 
-// opaqueEq compares two opaque strings of the same shape: literal parts must be equal, dec parts are
-// equal iff their terms are (decimal rendering is injective), provided every dec part is delimited by
-// a non-numeric literal or the string end.
-func (e *Exec) opaqueEq(a, b *opaqueStr) *Term {
-	if len(a.parts) != len(b.parts) {
-		e.unsupported("comparison of opaque strings of different shape")
+// token kinds: 1 = decimal integer, 4 = strconv.FormatFloat(f,'f',-1,64), 5 = %v / 'g' rendering of a float64
+func tokenAlphabet(kind int, b byte) bool {
+	switch kind {
+	case 1:
+		return (b >= '0' && b <= '9') || b == '-'
+	case 4, 5:
+		return (b >= '0' && b <= '9') || b == '-' || b == '+' || b == '.' || b == 'e' || b == 'E' || b == 'I' || b == 'n' || b == 'f' || b == 'N' || b == 'a'
 	}
-	r := e.tt.Bool(true)
-	for i := range a.parts {
-		p, q := a.parts[i], b.parts[i]
-		if p.kind != q.kind {
-			e.unsupported("comparison of opaque strings of different shape")
-		}
+	return true
+}
+
+type oItem struct {
+	b    *Term // one byte (when tok == 0)
+	tok  int   // token kind
+	t    *Term
+	uns  bool
+}
+
+func (e *Exec) flattenOpaque(o *opaqueStr) []oItem {
+	var out []oItem
+	for _, p := range o.parts {
 		switch p.kind {
 		case 0:
-			if p.lit != q.lit {
-				// different literal text of possibly different length: only safe when no variable-length part exists
-				e.unsupported("comparison of opaque strings with different literals")
+			for i := 0; i < len(p.lit); i++ {
+				out = append(out, oItem{b: e.byteConst(p.lit[i])})
 			}
-			if i > 0 && a.parts[i-1].kind == 1 && isDigitOrSign(p.lit[0]) {
-				e.unsupported("opaque decimal part followed by numeric literal")
-			}
-		case 1:
-			if p.uns != q.uns || p.dec.S != q.dec.S {
-				e.unsupported("comparison of opaque decimals of different types")
-			}
-			if i+1 < len(a.parts) && a.parts[i+1].kind != 0 {
-				e.unsupported("opaque decimal part not delimited")
-			}
-			r = e.tt.And(r, e.tt.Eq(p.dec, q.dec))
 		case 2:
-			if len(p.sym) != len(q.sym) {
-				e.unsupported("comparison of opaque strings of different shape")
+			for _, b := range p.sym {
+				out = append(out, oItem{b: b})
 			}
-			for j := range p.sym {
-				r = e.tt.And(r, e.tt.Eq(p.sym[j], q.sym[j]))
-			}
+		case 1, 4, 5:
+			out = append(out, oItem{tok: p.kind, t: p.dec, uns: p.uns})
 		default:
-			e.unsupported("comparison of unknown opaque string part")
+			e.unsupported("comparison of a formatted string with an unmodelled part")
 		}
 	}
-	return r
+	return out
+}
+
+// delimited: the item following a token must be a concrete byte outside the token alphabet, or the end.
+func (e *Exec) tokenDelimited(items []oItem, kind int) bool {
+	if len(items) == 0 {
+		return true
+	}
+	it := items[0]
+	return it.tok == 0 && it.b.Const && !tokenAlphabet(kind, byte(it.b.U))
+}
+
+// tokenEqConst: token renders exactly the concrete text?
+func (e *Exec) tokenEqConst(it oItem, text string) *Term {
+	tt := e.tt
+	switch it.tok {
+	case 1:
+		if it.uns {
+			u, err := strconv.ParseUint(text, 10, 64)
+			if err != nil || strconv.FormatUint(u, 10) != text {
+				return tt.Bool(false)
+			}
+			if it.t.S.W < 64 && u > mask(it.t.S.W) {
+				return tt.Bool(false)
+			}
+			return tt.Eq(it.t, tt.BVConst(u, it.t.S.W))
+		}
+		v, err := strconv.ParseInt(text, 10, 64)
+		if err != nil || strconv.FormatInt(v, 10) != text {
+			return tt.Bool(false)
+		}
+		w := it.t.S.W
+		if w < 64 && (v < -(int64(1)<<uint(w-1)) || v >= int64(1)<<uint(w-1)) {
+			return tt.Bool(false)
+		}
+		return tt.Eq(it.t, tt.BVConst(uint64(v), w))
+	case 4, 5:
+		f, err := strconv.ParseFloat(text, 64)
+		if err != nil {
+			return tt.Bool(false)
+		}
+		canon := strconv.FormatFloat(f, 'f', -1, 64)
+		if it.tok == 5 {
+			canon = fmt.Sprintf("%v", f)
+		}
+		if canon != text {
+			return tt.Bool(false)
+		}
+		return tt.Eq(it.t, tt.FPConst(f, it.t.S))
+	}
+	return tt.Bool(false)
+}
+
+// opaqueEq decides equality of two formatted strings from their structure: fixed bytes are compared
+// bytewise, tokens (decimal / float renderings, injective on values) are compared by value when they
+// start at the same offset and are delimited by a byte outside their alphabet. Anything that cannot be
+// decided this way ends the path as unsupported.
+func (e *Exec) opaqueEq(a, b *opaqueStr) *Term {
+	tt := e.tt
+	A, B := e.flattenOpaque(a), e.flattenOpaque(b)
+	r := tt.Bool(true)
+	for {
+		if r.IsFalse() {
+			return r
+		}
+		if len(A) == 0 || len(B) == 0 {
+			if len(A) == 0 && len(B) == 0 {
+				return r
+			}
+			rest := A
+			if len(A) == 0 {
+				rest = B
+			}
+			// the longer side still has content; tokens are never empty, bytes neither
+			_ = rest
+			return tt.Bool(false)
+		}
+		x, y := A[0], B[0]
+		switch {
+		case x.tok == 0 && y.tok == 0:
+			r = tt.And(r, tt.Eq(x.b, y.b))
+			A, B = A[1:], B[1:]
+		case x.tok != 0 && y.tok != 0 && ((x.tok == 1 && y.tok == 4) || (x.tok == 4 && y.tok == 1)):
+			// decimal integer against FormatFloat(f,'f',-1,64): equal texts iff f is a finite integral
+			// value other than -0 that denotes the same integer ('f' never uses an exponent)
+			if !e.tokenDelimited(A[1:], x.tok) || !e.tokenDelimited(B[1:], y.tok) {
+				e.unsupported("formatted number not delimited inside a compared string")
+			}
+			it, ft := x, y
+			if x.tok == 4 {
+				it, ft = y, x
+			}
+			f := ft.t
+			iv := it.t
+			if iv.S.W < 64 {
+				if it.uns {
+					iv = tt.ZExt(iv, 64)
+				} else {
+					iv = tt.SExt(iv, 64)
+				}
+			}
+			integral := tt.FCmp("fp.eq", tt.FRound(f, 1), f)
+			notNegZero := tt.Not(tt.Eq(f, tt.FPConst(math.Copysign(0, -1), FP64Sort)))
+			var same *Term
+			if it.uns {
+				inr := tt.And(tt.FCmp("fp.leq", tt.FPConst(0, FP64Sort), f), tt.FCmp("fp.lt", f, tt.FPConst(18446744073709551616.0, FP64Sort)))
+				same = tt.And(inr, tt.Eq(tt.FPToInt(f, false, 64), iv))
+			} else {
+				inr := tt.And(tt.FCmp("fp.leq", tt.FPConst(-9223372036854775808.0, FP64Sort), f), tt.FCmp("fp.lt", f, tt.FPConst(9223372036854775808.0, FP64Sort)))
+				same = tt.And(inr, tt.Eq(tt.FPToInt(f, true, 64), iv))
+			}
+			r = tt.And(r, tt.And(tt.And(integral, notNegZero), same))
+			A, B = A[1:], B[1:]
+		case x.tok != 0 && y.tok != 0:
+			if x.tok == 1 && y.tok == 1 && x.uns != y.uns {
+				// signed against unsigned decimal: equal iff both denote the same non-negative integer
+				if !e.tokenDelimited(A[1:], 1) || !e.tokenDelimited(B[1:], 1) {
+					e.unsupported("formatted number not delimited inside a compared string")
+				}
+				st, ut := x, y
+				if x.uns {
+					st, ut = y, x
+				}
+				sv, uv := tt.SExt(st.t, 64), tt.ZExt(ut.t, 64)
+				r = tt.And(r, tt.And(tt.SLe(tt.BVConst(0, 64), sv), tt.Eq(sv, uv)))
+				A, B = A[1:], B[1:]
+				continue
+			}
+			if x.tok == 1 && y.tok == 1 && x.t.S != y.t.S {
+				if !e.tokenDelimited(A[1:], 1) || !e.tokenDelimited(B[1:], 1) {
+					e.unsupported("formatted number not delimited inside a compared string")
+				}
+				if x.uns {
+					r = tt.And(r, tt.Eq(tt.ZExt(x.t, 64), tt.ZExt(y.t, 64)))
+				} else {
+					r = tt.And(r, tt.Eq(tt.SExt(x.t, 64), tt.SExt(y.t, 64)))
+				}
+				A, B = A[1:], B[1:]
+				continue
+			}
+			if x.tok != y.tok || x.uns != y.uns || x.t.S != y.t.S {
+				e.unsupported("comparison of differently rendered numbers inside formatted strings")
+			}
+			if !e.tokenDelimited(A[1:], x.tok) || !e.tokenDelimited(B[1:], y.tok) {
+				e.unsupported("formatted number not delimited inside a compared string")
+			}
+			r = tt.And(r, tt.Eq(x.t, y.t))
+			A, B = A[1:], B[1:]
+		default:
+			// token against bytes
+			tokSide, byteSide := A, B
+			if x.tok == 0 {
+				tokSide, byteSide = B, A
+			}
+			tk := tokSide[0]
+			// collect the concrete run on the byte side up to a byte outside the alphabet
+			n := 0
+			for n < len(byteSide) && byteSide[n].tok == 0 && byteSide[n].b.Const && tokenAlphabet(tk.tok, byte(byteSide[n].b.U)) {
+				n++
+			}
+			if n < len(byteSide) && (byteSide[n].tok != 0 || !byteSide[n].b.Const) {
+				if n == 0 && byteSide[0].tok == 0 && !byteSide[0].b.Const {
+					// symbolic byte against the first character of a number: equal only if that byte is in
+					// the alphabet; we cannot follow further
+					e.unsupported("formatted number compared against symbolic bytes")
+				}
+				e.unsupported("formatted number compared against a partly symbolic run")
+			}
+			if n == 0 {
+				return tt.Bool(false)
+			}
+			if !e.tokenDelimited(tokSide[1:], tk.tok) {
+				e.unsupported("formatted number not delimited inside a compared string")
+			}
+			raw := make([]byte, n)
+			for i := 0; i < n; i++ {
+				raw[i] = byte(byteSide[i].b.U)
+			}
+			r = tt.And(r, e.tokenEqConst(tk, string(raw)))
+			if x.tok == 0 {
+				A, B = A[n:], B[1:]
+			} else {
+				A, B = A[1:], B[n:]
+			}
+		}
+	}
 }
 
 func (e *Exec) strConcat(a, b StrV) StrV {
@@ -523,10 +705,7 @@ func (e *Exec) strConcat(a, b StrV) StrV {
 
 func (e *Exec) strEq(a, b StrV) *Term {
 	if a.opq != nil || b.opq != nil {
-		if a.opq != nil && b.opq != nil {
-			return e.opaqueEq(a.opq, b.opq)
-		}
-		e.unsupported("comparison of an opaque formatted string with a plain string")
+		return e.opaqueEq(e.toOpaque(a), e.toOpaque(b))
 	}
 	if a.Len() != b.Len() {
 		return e.tt.Bool(false)
@@ -547,6 +726,9 @@ func (e *Exec) strEq(a, b StrV) *Term {
 
 // strLess: lexicographic a < b as a term
 func (e *Exec) strLess(a, b StrV) *Term {
+	if a.opq != nil || b.opq != nil {
+		opaqueInspect()
+	}
 	if a.sym == nil && b.sym == nil {
 		return e.tt.Bool(a.s < b.s)
 	}
@@ -564,6 +746,9 @@ func (e *Exec) strLess(a, b StrV) *Term {
 }
 
 func (e *Exec) strSub(s StrV, lo, hi int) StrV {
+	if s.opq != nil {
+		opaqueInspect()
+	}
 	if s.sym == nil {
 		return StrV{s: s.s[lo:hi]}
 	}
@@ -575,6 +760,9 @@ func (e *Exec) strSub(s StrV, lo, hi int) StrV {
 func concreteKeyString(k Value) (string, bool) {
 	switch x := k.(type) {
 	case StrV:
+		if x.opq != nil {
+			return "", false
+		}
 		if x.sym == nil {
 			return "s:" + x.s, true
 		}
